@@ -16,15 +16,20 @@ def odl():
 # spaces
 # --------------------------------------------------------------------------
 
-SPACE_KINDS = ('rn', 'discr1d', 'discr2d', 'rn_w')
+SPACE_KINDS = ('rn', 'rn', 'discr1d', 'discr1d', 'discr2d', 'discr2d',
+               'rn_w', 'rn_w', 'rn_aw')
 
 
 def gen_space(rng, kinds=SPACE_KINDS, nmin=2, nmax=8):
     kind = rng.choice(kinds)
-    if kind in ('rn', 'rn_w'):
+    if kind in ('rn', 'rn_w', 'rn_aw'):
         cfg = {'kind': kind, 'n': rng.randint(nmin, nmax)}
         if kind == 'rn_w':
             cfg['w'] = rng.choice([0.5, 2.0, 0.125])
+        if kind == 'rn_aw':
+            # non-uniform (array) weighting
+            cfg['w'] = [rng.choice([0.5, 1.0, 2.0, 3.0])
+                        for _ in range(cfg['n'])]
         return cfg
     if kind == 'discr1d':
         return {'kind': kind, 'n': rng.randint(max(nmin, 2), nmax),
@@ -40,7 +45,7 @@ def build_space(cfg):
     k = cfg['kind']
     if k == 'rn':
         return o.rn(cfg['n'])
-    if k == 'rn_w':
+    if k in ('rn_w', 'rn_aw'):
         return o.rn(cfg['n'], weighting=cfg['w'])
     if k == 'discr1d':
         return o.uniform_discr(0, cfg['len'], cfg['n'])
@@ -73,7 +78,8 @@ def gen_op(rng, space_cfg, allow=('matrix', 'identity', 'scaling', 'gradient',
             continue
         if a in ('gradient', 'partial') and not k.startswith('discr'):
             continue
-        if a == 'broadcast' and k not in ('rn', 'discr1d', 'discr2d', 'rn_w'):
+        if a == 'broadcast' and k not in ('rn', 'discr1d', 'discr2d', 'rn_w',
+                                          'rn_aw'):
             continue
         cands.append(a)
     kind = rng.choice(cands)
